@@ -280,6 +280,11 @@ def run_plan(binary, plan):
                 f.write("garbage\n")
         if natural == "chronyd-vanishes" and chronyd and polls_before_fault and now - t_start > polls_before_fault * 1e9 and chronyd.mode != "absent":
             chronyd.set_mode("absent")
+        # chronyd changes its behaviour over time: [[seconds since start, mode], ...]
+        for at_s, mode in plan.get("chronyd_script", []):
+            if chronyd and now - t_start > at_s * 1e9 and mode not in plan.setdefault("_done_modes", []):
+                plan["_done_modes"].append(mode)
+                chronyd.set_mode(mode)
         if rc is not None:
             exit_ns = time.monotonic_ns()
             break
@@ -294,6 +299,7 @@ def run_plan(binary, plan):
         chronyd.stop = True
         chronyd.set_mode("absent")
     ref = fired_ns or fault_ns
+    plan.pop("_done_modes", None)
     obs = dict(plan)
     obs.update({
         "fired": ref is not None,
